@@ -16,8 +16,9 @@ LEVEL_TEXT = ("Coq theorems over an executable model of meiosis and of the seven
               "left-to-right mosaic of the two copies of the individual designated by a separately written pedigree specification "
               "(founder or intermediate hybrid, recursively), the source copy changes only where the crossover probability is positive, "
               "every allele comes from a founder of the cross row at the same marker; progeny count = sum nmating*nprogeny, family labels and "
-              "names follow the repeat pattern, counters advance exactly, DH progeny are homozygous; the line-by-line segment-copy loop equals "
-              "the per-marker reading. The model is tied to the code by evaluating it inside Coq on generated inputs with scripted draws "
+              "names follow the repeat pattern (as a permutation in general, in order while names fit the 7-digit zero-fill: _partial + _refuted), counters advance "
+              "exactly, DH progeny are homozygous, marker metadata except vrnt_hapalt/vrnt_hapref is handed over (_partial + _refuted); the line-by-line "
+              "segment-copy loop equals the per-marker reading. The model is tied to the code by evaluating it inside Coq on generated inputs with scripted draws "
               "against the outputs of all seven protocols and of mat_*/dense_* (exact equality of every output array)")
 LEVEL_NOTE = ("trusted: Coq kernel + vm_compute; numpy slicing/repeat/stack/lexsort/unique semantics are modelled by hand and tied to the code only "
               "differentially; uniforms are scripted on the grid k/2^10 (a numpy Generator subclass), so the generator itself is outside the model; "
@@ -27,7 +28,7 @@ TECHNIQUE = "Coq proof over an executable model (refinement loop = per-marker mo
 RULE = ("case = (protocol | mat_/dense_ function, genotype array, xoprob, xconfig, counts, nself, counters, metadata, scripted uniform pool); one PRNG; "
         "taxa 1..8, markers 1..24 in 1..3 chromosomes, int8 alleles incl. -128/127, xoprob from {0,2^-10,1/4,1/2,1-2^-10,1} and random k/2^10, "
         "draws biased to the comparison boundary (u = p and u = p - 2^-10), crosses 0..4 with selfs and repeated parents, scalar and array counts incl. 0, "
-        "nself 0..3; plus provenance cases with real PCG64 draws (predicate only) and exhaustive crossover patterns; non-trivial = two founders of a cross "
+        "nself 0..3; plus provenance cases with real PCG64 draws and real-valued probabilities (small ones also evaluated in Coq on the exact rationals of the binary64 draws) and exhaustive crossover patterns; non-trivial = two founders of a cross "
         "row differ at a marker and at least one scripted crossover fires; distinct by SHA-256 of the case")
 TRUSTED = ["rngscript.Scripted subclass handing out the case's uniform pool in request order (shapes and ranges requested are logged and compared)",
            "integer codes of strings/floats used to compare metadata arrays are injective (bytes of the value)"]
@@ -170,6 +171,7 @@ def _proto_case(rng, proto, tier, opts=None):
     hap = rng.random() < 0.1
     case = {"kind": "proto", "proto": proto, "geno": geno, "xoprob": xoprob, "xconfig": xc, "nmating": nmating, "nprogeny": nprogeny,
             "nself": nself, "pc": pc, "fc": fc, "meta": _meta(rng, p, set(starts), hap)}
+    if rng.random() < 0.15: case["np_scalar"] = True          # Integral counts given as numpy.int64 scalars
     bad = o.get("bad")
     if bad == "index" and ncross:
         i = rng.randrange(ncross); xc[i][rng.randrange(npar)] = n + rng.randint(0, 2)
@@ -298,6 +300,9 @@ def _run_proto(case):
     xc = numpy.array(case["xconfig"], dtype="int64").reshape(len(case["xconfig"]), case.get("xwidth", len(case["xconfig"][0]) if case["xconfig"] else npar))
     nm = case["nmating"] if isinstance(case["nmating"], int) else numpy.array(case["nmating"], dtype="int64")
     np_ = case["nprogeny"] if isinstance(case["nprogeny"], int) else numpy.array(case["nprogeny"], dtype="int64")
+    if case.get("np_scalar"):
+        if isinstance(nm, int): nm = numpy.int64(nm)
+        if isinstance(np_, int): np_ = numpy.int64(np_)
     args_before = (_snap(xc), _snap(nm) if not isinstance(nm, int) else None, _snap(np_) if not isinstance(np_, int) else None)
     rng = Real(case["real_rng"]) if case.get("real_rng") is not None else Pool(case["pool"])
     prot = cls(progeny_counter=case["pc"], family_counter=case["fc"], rng=rng)
